@@ -10,7 +10,7 @@ CONSTANTS
   MaxSrv = 1
   MaxHout = 1
   MaxCtrlC = 1
-  MaxText = 1
+  MaxText = 0
   InitBeforePublish = FALSE
   ErrArms = {FALSE}
 INVARIANTS TypeOK VetoedHeaderStartsNothing CancelSentToWaiter NotStuckButNoCmd ActiveHasHelper LongQuietEndsAll CursorBack QuiescentDef
